@@ -546,6 +546,7 @@ def d_offset(F, R):
 
 def check_c01(F, R):
     t_logic_templates(F, R)
+    t_num_templates(F, R)
     p_req(F, R)
     t_convex(F, R)
     p_bigm(F, R)
@@ -559,6 +560,9 @@ def check_c02(F, R):
     t_convex(F, R)
     d_offset(F, R)
     c04.d_activity_offset(F, R)
+    # the one-sided lowerings are exactly what keeps optimal values right: under `lower is better` no value below f may be
+    # let in (and f itself must stay reachable), dually for `higher is better`
+    t_num_templates(F, R, reqs=("PreferLower", "PreferHigher"))
 
 
 # ---- T-LOGIC-TEMPLATES ----------------------------------------------------------------------
@@ -798,3 +802,295 @@ def t_logic_templates(F, R):
         R.fn(g["path"])
         t = sexp(g["body"])
         R.ob("T-LOGIC-TEMPLATES", "reify:rows-and-domain", "Constraint::new(Exp::Variable(var_name.clone()), comparison, rhs" in t.replace("model::", "").replace("parser::model_transformer::", "") and "VariableType::Boolean" in t, F.loc(g), "a reified value z is tied by rows `z <cmp> rhs` and declared Boolean")
+
+
+# ---- T-NUM-TEMPLATES ------------------------------------------------------------------------------------
+# abs / min / max lowering: the arms of Exp::linearize and linearize_extreme are evaluated from their HIR with the
+# linearizer context replaced by a recorder (declared auxiliaries with their domains, emitted rows) and the bounds oracle
+# replaced by a table of operand intervals.  For every representative interval class (sign-known, sign-unknown, half
+# bounded, unbounded, dominated / overlapping / equal-fixed operands) and every value requirement, the emitted rows are
+# decided on a rational grid of operand values (non-integers included): with t the auxiliary, some 0/1 choice of the
+# selectors satisfies all rows and t's declared domain
+#     Exact         iff value = f(operands)
+#     PreferLower   only if value >= f(operands), and value = f(operands) is possible
+#     PreferHigher  only if value <= f(operands), and value = f(operands) is possible
+# A refusal (MissingFiniteBounds) is accepted only when the needed bound is infinite.
+
+def _has_nonfinite(t):
+    if isinstance(t, tuple):
+        if t and t[0] == "num" and isinstance(t[1], float) and (t[1] != t[1] or abs(t[1]) == float("inf")):
+            return True
+        return any(_has_nonfinite(x) for x in t[1:])
+    if isinstance(t, list):
+        return any(_has_nonfinite(x) for x in t)
+    return False
+
+
+def t_num_templates(F, R, reqs=("Exact", "PreferLower", "PreferHigher")):
+    import c10
+    import itertools as it
+    from fractions import Fraction as Fr
+    from interp import Interp, Var as V, Rope as Rp, ListV as LV, Leaf as Lf, is_unknown
+    L = "transformers::linearizer::"
+    LC = L + "LinearizationContext::"
+    BND = "transformers::bounds::Bounds"
+    INF = float("inf")
+    OK = "std::result::Result::Ok"
+    I = Interp(F, max_depth=200)
+    rec = {"rows": [], "aux": {}, "bounds": {}}
+
+    def name_of(v):
+        x = v.args[0]
+        return x.text() if isinstance(x, Rp) else str(x)
+
+    def bounds_of_exp(e):
+        n = e.path.rsplit("::", 1)[-1]
+        if n == "Variable":
+            return rec["bounds"][name_of(e)]
+        if n == "Number":
+            return (float(e.args[0]), float(e.args[0]))
+        if n in ("Min", "Max"):
+            bs = [bounds_of_exp(x) for x in e.args[0].items]
+            f = min if n == "Min" else max
+            return (f(b[0] for b in bs), f(b[1] for b in bs))
+        raise KeyError(n)
+
+    def m_bounds(I_, a):
+        lo, hi = bounds_of_exp(a[1])
+        return V(BND, fields={"lower": lo, "upper": hi})
+
+    def to_exp(aff):
+        e = V(c10.EXP + "::Number", [aff.k])
+        for nm, co in aff.c.items():
+            term = V(c10.EXP + "::BinOp", [V("math::operators::BinOp::Mul"), V(c10.EXP + "::Number", [co]), V(c10.EXP + "::Variable", [Rp([nm])])])
+            e = V(c10.EXP + "::BinOp", [V("math::operators::BinOp::Add"), e, term])
+        return e
+
+    def m_mul(I_, a):
+        a[0].c = {n: v * a[1] for n, v in a[0].c.items()}
+        a[0].k *= a[1]
+        return ()
+
+    def m_decl(I_, a):
+        nm = a[1].text() if isinstance(a[1], Rp) else str(a[1])
+        rec["aux"][nm] = a[2]
+        return V(OK, [()])
+
+    def m_addc(I_, a):
+        c = a[1]
+        rec["rows"].append((c.fields["lhs"], c.fields["constraint_type"], c.fields["rhs"]))
+        return ()
+    I.models["transformers::bounds::BoundsAnalyzer::bounds_of"] = m_bounds
+    def m_merge(sign):
+        def f(I_, a):
+            for n_, v_ in a[1].c.items():
+                a[0].c[n_] = a[0].c.get(n_, 0.0) + sign * v_
+            a[0].k += sign * a[1].k
+            return ()
+        return f
+
+    def m_div(I_, a):
+        a[0].c = {n_: v_ / a[1] for n_, v_ in a[0].c.items()}
+        a[0].k /= a[1]
+        return ()
+    I.models[LC + "mul_by"] = m_mul
+    I.models[LC + "div_by"] = m_div
+    I.models[LC + "merge_add"] = m_merge(1.0)
+    I.models[LC + "merge_sub"] = m_merge(-1.0)
+    I.models[LC + "from_var"] = lambda I_, a: _Aff({(a[0].text() if isinstance(a[0], Rp) else str(a[0])): float(a[1])}, 0.0)
+    I.models[LC + "from_rhs"] = lambda I_, a: _Aff({}, float(a[0]))
+    I.models[L + "context_to_exp"] = lambda I_, a: to_exp(a[0])
+    I.models[L + "Linearizer::declare_variable"] = m_decl
+    I.models[L + "Linearizer::add_constraint"] = m_addc
+    I.models[L + "variables_without_finite_bounds"] = lambda I_, a: LV([])
+    for p in (EXP_LIN, L + "linearize_extreme"):
+        R.fn(p)
+
+    def fresh_ctx():
+        return V(L + "Linearizer", fields={"abs_count": 0, "min_count": 0, "max_count": 0, "bounds": V("BOUNDS"), "domain": V("DOMAIN")})
+
+    def var(n):
+        return V(c10.EXP + "::Variable", [Rp([n])])
+
+    def grid(lo, hi):
+        lo2 = max(lo, -6.0)
+        hi2 = min(hi, 9.0)
+        pts = set()
+        x = Fr(int(lo2 * 2), 2)
+        while x <= Fr(int(hi2 * 2), 2):
+            if lo <= x <= hi:
+                pts.add(x)
+            x += Fr(1, 2)
+        for e in (lo, hi):
+            if e not in (INF, -INF):
+                pts.add(Fr(e))
+        m = (Fr(lo2) + Fr(hi2)) / 2 + Fr(1, 3)
+        if lo <= m <= hi:
+            pts.add(m)
+        return sorted(pts)
+
+    def in_domain(ty, val):
+        k = ty.path.rsplit("::", 1)[-1]
+        if k == "Boolean":
+            return val in (0, 1)
+        lo, hi = ty.args[0], ty.args[1]
+        return (lo == -INF or val >= Fr(lo)) and (hi == INF or val <= Fr(hi))
+
+    def holds(row, env):
+        l = c10.evaluate(c10.from_val(row[0]), env)
+        r = c10.evaluate(c10.from_val(row[1 + 1]), env)
+        k = row[1].path.rsplit("::", 1)[-1]
+        return {"LessOrEqual": l <= r, "GreaterOrEqual": l >= r, "Equal": l == r}[k]
+
+    def decide(key, exp, names, f, req, where, inner_values=None):
+        """evaluate the lowering of exp under req and check the rows on the grid of the operands' intervals"""
+        rec["rows"], rec["aux"] = [], {}
+        r = I.call_fn(EXP_LIN, [exp, fresh_ctx(), V(VR + "::" + req)])
+        if is_unknown(r):
+            R.ob("T-NUM-TEMPLATES", key, False, where, "lowering not evaluable: %r" % (r,))
+            return
+        bs = [rec["bounds"][n] for n in names]
+        if isinstance(r, V) and r.path.endswith("Result::Err"):
+            e = r.args[0]
+            refused = isinstance(e, V) and e.path.endswith("MissingFiniteBounds")
+            needs = any(b[0] == -INF or b[1] == INF for b in bs)
+            R.ob("T-NUM-TEMPLATES", key, refused and needs, where, "refused with %s; an exact big-M lowering needs finite bounds and %s" % (e.path.rsplit("::", 1)[-1] if isinstance(e, V) else e, "a bound is infinite" if needs else "all bounds are finite: the refusal is not justified"))
+            return
+        aff = r.args[0]
+        bools = [n for n, t in rec["aux"].items() if t.path.endswith("Boolean")]
+        conts = [n for n in rec["aux"] if n not in bools]
+        bad = None
+        n_pts = 0
+        # a row with a non-finite constant (an infinite big-M) is not a linear row at all
+        for row in rec["rows"]:
+            for side in (row[0], row[2]):
+                t_ = c10.from_val(side)
+                if t_ is None or _has_nonfinite(t_):
+                    bad = "an emitted row has a non-finite or unreadable constant: %s %s %s" % (c10.show(c10.from_val(row[0])) if c10.from_val(row[0]) else row[0], row[1].path.rsplit("::", 1)[-1], c10.show(c10.from_val(row[2])) if c10.from_val(row[2]) else row[2])
+        if bad:
+            R.ob("T-NUM-TEMPLATES", key, False, where, bad)
+            return
+        if len(conts) > 3:
+            R.ob("T-NUM-TEMPLATES", key, False, where, "more than three continuous auxiliaries: %s" % conts)
+            return
+        grids = [grid(*b) for b in bs]
+        if len(conts) > 1:
+            # nested forms: thin the operand grid, the auxiliaries multiply the candidates
+            grids = [g[::2] + ([g[-1]] if len(g) % 2 == 0 else []) for g in grids]
+        for pt in it.product(*grids):
+            env0 = dict(zip(names, pt))
+            want = f(*pt)
+            base = {want, want + 1, want - 1, want + Fr(1, 2), want - Fr(1, 2)} | set(pt) | {-x for x in pt}
+            if inner_values is not None:
+                for v_ in inner_values(*pt):
+                    base |= {v_, -v_, v_ + 1, v_ - 1}
+            cands = sorted(base)
+            feas = set()
+            for ts in it.product(cands, repeat=len(conts)):
+                if any(not in_domain(rec["aux"][c_], t_) for c_, t_ in zip(conts, ts)):
+                    continue
+                for sel in it.product((0, 1), repeat=len(bools)):
+                    env = dict(env0)
+                    env.update({b_: Fr(s_) for b_, s_ in zip(bools, sel)})
+                    env.update(dict(zip(conts, ts)))
+                    if all(holds(row, env) for row in rec["rows"]):
+                        val = sum((Fr(co) * env[nm] for nm, co in aff.c.items()), Fr(aff.k))
+                        feas.add(val)
+                        break
+            n_pts += 1
+            if want not in feas:
+                bad = "at %s the value %s = f(operands) is cut off (feasible values among the candidates: %s)" % (dict((k_, str(v_)) for k_, v_ in env0.items()), want, sorted(str(x) for x in feas))
+            elif req == "Exact" and feas != {want}:
+                bad = "at %s values %s other than f = %s are let in" % (dict((k_, str(v_)) for k_, v_ in env0.items()), sorted(str(x) for x in feas if x != want), want)
+            elif req == "PreferLower" and any(x < want for x in feas):
+                bad = "at %s a value below f = %s is let in where lower is preferred: %s" % (dict((k_, str(v_)) for k_, v_ in env0.items()), want, sorted(str(x) for x in feas))
+            elif req == "PreferHigher" and any(x > want for x in feas):
+                bad = "at %s a value above f = %s is let in where higher is preferred: %s" % (dict((k_, str(v_)) for k_, v_ in env0.items()), want, sorted(str(x) for x in feas))
+            if bad:
+                break
+        R.ob("T-NUM-TEMPLATES", key, bad is None, where, "%d rows, auxiliaries %s: %s" % (len(rec["rows"]), {k_: v_.path.rsplit("::", 1)[-1] for k_, v_ in rec["aux"].items()}, bad or "correct on %d operand points" % n_pts))
+
+    where = "packages/rooc/src/transformers/linearizer.rs"
+    abs_classes = [(-3.0, 5.0), (0.0, 5.0), (-5.0, 0.0), (-3.0, -1.0), (2.0, 4.0), (-4.0, 0.5), (-0.5, 4.0), (0.0, 0.0), (-INF, 5.0), (-3.0, INF), (-INF, INF), (-INF, -1.0), (1.0, INF)]
+    for b in abs_classes:
+        for req in reqs:
+            rec["bounds"] = {"x": b}
+            decide("abs[%s,%s]:%s" % (b[0], b[1], req), V(c10.EXP + "::Abs", [var("x")]), ["x"], lambda x: abs(x), req, where)
+    pair_classes = [((0.0, 5.0), (2.0, 8.0)), ((0.0, 5.0), (5.0, 8.0)), ((0.0, 5.0), (6.0, 8.0)), ((2.0, 8.0), (0.0, 5.0)), ((1.0, 1.0), (1.0, 1.0)), ((-3.0, 3.0), (-1.0, 1.0)),
+                    ((-2.5, 0.5), (0.25, 4.0)), ((-INF, 5.0), (0.0, 3.0)), ((0.0, INF), (0.0, 3.0)), ((-INF, INF), (0.0, 3.0)), ((0.0, 3.0), (0.0, 3.0)), ((-4.0, -1.0), (-2.0, 6.0))]
+    for kind, f in (("Max", max), ("Min", min)):
+        for bx, by in pair_classes:
+            for req in reqs:
+                rec["bounds"] = {"x": bx, "y": by}
+                decide("%s[%s,%s|%s,%s]:%s" % (kind.lower(), bx[0], bx[1], by[0], by[1], req), V(c10.EXP + "::" + kind, [LV([var("x"), var("y")])]), ["x", "y"], f, req, where)
+        for req in reqs:
+            rec["bounds"] = {"x": (0.0, 5.0), "y": (2.0, 8.0), "z": (-1.0, 3.0)}
+            decide("%s3:%s" % (kind.lower(), req), V(c10.EXP + "::" + kind, [LV([var("x"), var("y"), var("z")])]), ["x", "y", "z"], f, req, where)
+            rec["bounds"] = {"x": (0.0, 5.0)}
+            decide("%s-const:%s" % (kind.lower(), req), V(c10.EXP + "::" + kind, [LV([var("x"), V(c10.EXP + "::Number", [2.0])])]), ["x"], (lambda x, f=f: f(x, 2)), req, where)
+    # nested forms: the requirement handed to the inner form (reversed under a non-positive abs argument, exact under a
+    # sign-unknown one) decides whether the composition is still right
+    E = c10.EXP
+    mx = lambda a, b: V(E + "::Max", [LV([a, b])])
+    mn = lambda a, b: V(E + "::Min", [LV([a, b])])
+    ab = lambda a: V(E + "::Abs", [a])
+    neg = lambda a: V(E + "::UnOp", [V("math::operators::UnOp::Neg"), a])
+
+    def bounds_of_nested(e):
+        n = e.path.rsplit("::", 1)[-1]
+        if n == "Abs":
+            lo, hi = bounds_of_nested(e.args[0])
+            return (0.0 if lo <= 0 <= hi else min(abs(lo), abs(hi)), max(abs(lo), abs(hi)))
+        if n == "UnOp":
+            lo, hi = bounds_of_nested(e.args[1])
+            return (-hi, -lo)
+        if n in ("Min", "Max"):
+            bs_ = [bounds_of_nested(x) for x in e.args[0].items]
+            f_ = min if n == "Min" else max
+            return (f_(b[0] for b in bs_), f_(b[1] for b in bs_))
+        if n == "BinOp":
+            o = e.args[0].path.rsplit("::", 1)[-1]
+            (a0, a1), (b0, b1) = bounds_of_nested(e.args[1]), bounds_of_nested(e.args[2])
+            if o == "Add":
+                return (a0 + b0, a1 + b1)
+            if o == "Sub":
+                return (a0 - b1, a1 - b0)
+            if o == "Mul":
+                ps = [a0 * b0, a0 * b1, a1 * b0, a1 * b1]
+                return (min(ps), max(ps))
+            if o == "Div":
+                ps = [a0 / b0, a1 / b0]
+                return (min(ps), max(ps))
+        return bounds_of_exp(e)
+    I.models["transformers::bounds::BoundsAnalyzer::bounds_of"] = lambda I_, a: V(BND, fields=dict(zip(("lower", "upper"), bounds_of_nested(a[1]))))
+    nested = [
+        ("abs(max)<=0", ab(mx(var("x"), var("y"))), {"x": (-5.0, -1.0), "y": (-4.0, -2.0)}, lambda x, y: abs(max(x, y)), lambda x, y: [max(x, y)]),
+        ("abs(min)<=0", ab(mn(var("x"), var("y"))), {"x": (-5.0, -1.0), "y": (-4.0, -2.0)}, lambda x, y: abs(min(x, y)), lambda x, y: [min(x, y)]),
+        ("abs(max)>=0", ab(mx(var("x"), var("y"))), {"x": (1.0, 5.0), "y": (2.0, 4.0)}, lambda x, y: abs(max(x, y)), lambda x, y: [max(x, y)]),
+        ("abs(max)+-", ab(mx(var("x"), var("y"))), {"x": (-3.0, 2.0), "y": (-2.0, 1.0)}, lambda x, y: abs(max(x, y)), lambda x, y: [max(x, y)]),
+        ("abs(min)+-", ab(mn(var("x"), var("y"))), {"x": (-3.0, 2.0), "y": (-2.0, 1.0)}, lambda x, y: abs(min(x, y)), lambda x, y: [min(x, y)]),
+        ("max(abs,y)", mx(ab(var("x")), var("y")), {"x": (-3.0, 2.0), "y": (0.0, 4.0)}, lambda x, y: max(abs(x), y), lambda x, y: [abs(x)]),
+        ("min(abs,y)", mn(ab(var("x")), var("y")), {"x": (-3.0, 2.0), "y": (0.0, 4.0)}, lambda x, y: min(abs(x), y), lambda x, y: [abs(x)]),
+        ("-max", neg(mx(var("x"), var("y"))), {"x": (0.0, 3.0), "y": (1.0, 4.0)}, lambda x, y: -max(x, y), lambda x, y: [max(x, y)]),
+        ("-abs", neg(ab(var("x"))), {"x": (-3.0, 2.0)}, lambda x: -abs(x), lambda x: [abs(x)]),
+        ("max(min,z)", mx(mn(var("x"), var("y")), var("z")), {"x": (0.0, 3.0), "y": (1.0, 4.0), "z": (0.5, 2.0)}, lambda x, y, z: max(min(x, y), z), lambda x, y, z: [min(x, y)]),
+    ]
+    num = lambda c: V(E + "::Number", [float(c)])
+    bop = lambda o, a, b: V(E + "::BinOp", [V("math::operators::BinOp::" + o), a, b])
+    xb = {"x": (-3.0, 2.0)}
+    xyb = {"x": (0.0, 3.0), "y": (1.0, 4.0)}
+    nested += [
+        ("abs/-2", bop("Div", ab(var("x")), num(-2)), xb, lambda x: abs(x) / -2, lambda x: [abs(x)]),
+        ("abs/2", bop("Div", ab(var("x")), num(2)), xb, lambda x: abs(x) / 2, lambda x: [abs(x)]),
+        ("-2*max", bop("Mul", num(-2), mx(var("x"), var("y"))), xyb, lambda x, y: -2 * max(x, y), lambda x, y: [max(x, y)]),
+        ("min*-0.5", bop("Mul", mn(var("x"), var("y")), num(-0.5)), xyb, lambda x, y: min(x, y) * Fr(-1, 2), lambda x, y: [min(x, y)]),
+        ("3*max", bop("Mul", num(3), mx(var("x"), var("y"))), xyb, lambda x, y: 3 * max(x, y), lambda x, y: [max(x, y)]),
+        ("3-min", bop("Sub", num(3), mn(var("x"), var("y"))), xyb, lambda x, y: 3 - min(x, y), lambda x, y: [min(x, y)]),
+        ("max-abs", bop("Sub", mx(var("x"), var("y")), ab(var("x"))), {"x": (-2.0, 2.0), "y": (0.0, 3.0)}, lambda x, y: max(x, y) - abs(x), lambda x, y: [max(x, y), abs(x)]),
+        ("abs+max", bop("Add", ab(var("x")), mx(var("x"), var("y"))), {"x": (-2.0, 2.0), "y": (0.0, 3.0)}, lambda x, y: abs(x) + max(x, y), lambda x, y: [max(x, y), abs(x)]),
+        ("-(max/-4)", neg(bop("Div", mx(var("x"), var("y")), num(-4))), xyb, lambda x, y: max(x, y) / 4, lambda x, y: [max(x, y)]),
+    ]
+    for label, exp, bnds, f, inner in nested:
+        for req in reqs:
+            rec["bounds"] = bnds
+            decide("nested:%s:%s" % (label, req), exp, sorted(bnds), f, req, where, inner)
